@@ -653,6 +653,10 @@ var govcLog []interface{}
 
 func govcEnc(x interface{}) interface{} { return govcEncV(reflect.ValueOf(x), 0) }
 
+// govcEncP encodes the variable p points to, keeping its static type (an error or other interface variable is
+// encoded as an interface value, with its dynamic type and error text)
+func govcEncP(p interface{}) interface{} { return govcEncV(reflect.ValueOf(p).Elem(), 0) }
+
 func govcEncV(v reflect.Value, d int) interface{} {
 	if !v.IsValid() || d > 6 {
 		return nil
@@ -908,7 +912,7 @@ func doReplay(e *Engine, u *Unit, o *Obligation, fn *ssa.Function, repo string, 
 	{
 		var pres []string
 		for _, a := range args {
-			pres = append(pres, "govcEnc("+a+")")
+			pres = append(pres, "govcEncP(&"+a+")")
 		}
 		body.WriteString("\tout := map[string]interface{}{}\n\tout[\"pre\"] = []interface{}{" + strings.Join(pres, ", ") + "}\n")
 	}
@@ -919,7 +923,7 @@ func doReplay(e *Engine, u *Unit, o *Obligation, fn *ssa.Function, repo string, 
 		body.WriteString("\t\t" + strings.Join(lhs, ", ") + " := " + call + "\n")
 		var encs []string
 		for _, l := range lhs {
-			encs = append(encs, "govcEnc("+l+")")
+			encs = append(encs, "govcEncP(&"+l+")")
 		}
 		body.WriteString("\t\tout[\"results\"] = []interface{}{" + strings.Join(encs, ", ") + "}\n")
 	} else {
@@ -928,7 +932,7 @@ func doReplay(e *Engine, u *Unit, o *Obligation, fn *ssa.Function, repo string, 
 	body.WriteString("\t}()\n")
 	var posts []string
 	for _, a := range args {
-		posts = append(posts, "govcEnc("+a+")")
+		posts = append(posts, "govcEncP(&"+a+")")
 	}
 	body.WriteString("\tout[\"post\"] = []interface{}{" + strings.Join(posts, ", ") + "}\n")
 	body.WriteString("\tout[\"log\"] = govcLog\n")
